@@ -42,6 +42,7 @@ func runFamily(r *Reporter, prop string, runs []famRun, configs func(c *ProgCase
 			for _, cfg := range configs(c) {
 				obs := Observe(c, cfg)
 				r.addTraces(1)
+				r.countObs(matchFinding(prop, c.Tags, &cfg, "") == "")
 				if obs.Symptom() == "" {
 					continue
 				}
